@@ -73,6 +73,36 @@ class Perm(enum.IntFlag):
     W = 2
 
 Odd = enum.Enum("Odd", {"a-b": 1, "class": "kw"})
+
+class SStr(str):
+    def __repr__(self):
+        return "SStr(%s)" % str.__repr__(self)
+LS = SStr("sa")
+
+from mashumaro.types import SerializableType
+class Weird(SerializableType):
+    """user type whose own code rejects inputs with exotic exceptions"""
+    def __init__(self, v):
+        self.v = v
+    def __eq__(self, o):
+        return type(o) is Weird and o.v == self.v
+    def __repr__(self):
+        return "Weird(%r)" % (self.v,)
+    def _serialize(self):
+        return {"weird": self.v}
+    @classmethod
+    def _deserialize(cls, value):
+        if isinstance(value, dict) and "weird" in value:
+            return cls(value["weird"])
+        if isinstance(value, str):
+            raise RuntimeError("no")
+        if isinstance(value, bool):
+            raise StopIteration
+        if isinstance(value, int):
+            raise ZeroDivisionError
+        if isinstance(value, list):
+            raise AssertionError
+        raise KeyError(value)
 from typing_extensions import TypeVar as XTypeVar
 '''
 
@@ -80,7 +110,7 @@ from typing_extensions import TypeVar as XTypeVar
 SCALAR_EXPRS = ["int", "float", "bool", "str", "None"]
 NONSCALAR_EXPRS = [
     "List[int]", "List[str]", "Dict[str, int]", "Tuple[int, str]", "Tuple[int, ...]", "List[date]",
-    "date", "datetime", "UUID", "Decimal", "DC1", "DC2", "DC3", "Color", "Num", "Kind", "Perm", "bytes",
+    "date", "datetime", "UUID", "Decimal", "DC1", "DC2", "DC3", "Color", "Num", "Kind", "Perm", "Weird", "bytes",
     "List[Union[int, date]]", "Dict[str, Union[None, int, str]]", "Literal['a', 1]", "Sequence[int]",
     "List[Optional[int]]",
 ]
@@ -100,6 +130,7 @@ CURATED_UNIONS = [
     "Union[bytes, str]", "Union[List[Union[int, date]], str]", "Union[datetime, date, str]",
     "Union[date, datetime]", "Union[Dict[str, int], DC1, str]", "Union[float, str, None]",
     "Union[int, Num]", "Union[Num, int]", "Union[Kind, str]", "Union[str, Kind, None]", "Union[Decimal, str]", "Union[None, int, str]",
+    "Union[Weird, str]", "Union[Weird, int, List[int]]", "Union[Weird, bool, Dict[str, int]]",
 ]
 
 DECODE_INPUTS = [
@@ -108,7 +139,7 @@ DECODE_INPUTS = [
     "'None'", "'2020-01-01'", "'2020-01-01T10:20:30'", "'r'", "'g'", "'eA==\\n'", "'12345678-1234-5678-1234-567812345678'",
     "'\\u0663'", "'1_0'", "'nan'", "'ka'", "4", "6", "[]", "[1]", "[1, 2]", "['1']", "['a']", "[1, 'a']", "['2020-01-01']", "[[1]]", "[None]",
     "[1.5]", "[True]", "{}", "{'x': 1}", "{'x': '1'}", "{'y': 's'}", "{'y': 's', 'z': 2}", "{'x': '2020-01-01'}",
-    "{'a': 1}", "{'a': None}", "{'a': 'b'}", "{1: 2}", "{'x': 1, 'y': 's'}", "b'1'", "(1, 2)", "(1, 'a')", "[1, 's']",
+    "{'a': 1}", "{'weird': 3}", "{'a': None}", "{'a': 'b'}", "{1: 2}", "{'x': 1, 'y': 's'}", "b'1'", "(1, 2)", "(1, 'a')", "[1, 's']",
 ]
 
 # values for the encode direction, by member expression
@@ -120,7 +151,7 @@ ENCODE_VALUES = {
     "date": ["date(2020, 1, 1)"], "datetime": ["datetime(2020, 1, 1, 10, 20, 30)"],
     "UUID": ["UUID('12345678-1234-5678-1234-567812345678')"], "Decimal": ["Decimal('1.5')"],
     "DC1": ["DC1(x=1)"], "DC2": ["DC2(y='s', z=2)"], "DC3": ["DC3(x=date(2020, 1, 1))"],
-    "Color": ["Color.RED"], "Num": ["Num.TWO", "Num.ONE"], "Kind": ["Kind.A"], "Perm": ["Perm.R", "Perm.R | Perm.W"], "bytes": ["b'x'"],
+    "Color": ["Color.RED"], "Num": ["Num.TWO", "Num.ONE"], "Kind": ["Kind.A"], "Weird": ["Weird(3)"], "Perm": ["Perm.R", "Perm.R | Perm.W"], "bytes": ["b'x'"],
     "List[Union[int, date]]": ["[1, date(2020, 1, 1)]", "[2]"], "Dict[str, Union[None, int, str]]": ["{'a': None, 'b': 1, 'c': 's'}"],
     "Literal['a', 1]": ["'a'", "1"], "Sequence[int]": ["[3]"], "List[Optional[int]]": ["[None, 1]"],
 }
@@ -137,16 +168,16 @@ CURATED_ENC_UNIONS = [
 ]
 
 LIT_POOL = ["0", "1", "2", "-1", "True", "False", "'a'", "'1'", "''", "None", "Color.RED", "Color.GREEN",
-            "Num.ONE", "Lvl.LO", "Lvl.HI", "b'x'", "'r'", "1000", "'x y'", "Odd['a-b']", "Odd['class']", "Kind.A"]
+            "Num.ONE", "Lvl.LO", "Lvl.HI", "b'x'", "'r'", "1000", "'x y'", "Odd['a-b']", "Odd['class']", "Kind.A", "LS"]
 LIT_INPUTS = ["0", "1", "2", "-1", "True", "False", "0.0", "1.0", "2.0", "-1.0", "1.5", "float('nan')", "'a'", "'1'", "''",
-              "None", "'r'", "'g'", "'eA==\\n'", "'eA=='", "'x'", "[]", "[1]", "{}", "'True'", "'None'", "10**20", "1000", "'x y'", "1000.0", "'kw'", "'ka'"]
+              "None", "'r'", "'g'", "'eA==\\n'", "'eA=='", "'x'", "[]", "[1]", "{}", "'True'", "'None'", "10**20", "1000", "'x y'", "1000.0", "'kw'", "'ka'", "'sa'", "LS"]
 LIT_ENC_EXTRA = ["0", "1", "2", "True", "False", "1.0", "0.0", "'a'", "'r'", "'zz'", "None", "Num.ONE", "Num.TWO", "Lvl.LO", "Color.GREEN",
-                 "b'x'", "b'y'", "1000", "[]", "1000.0"]
+                 "b'x'", "b'y'", "1000", "[]", "1000.0", "'sa'", "LS"]
 CURATED_LITS = ["Literal[1]", "Literal[1, True]", "Literal[0, False]", "Literal[True, 1]", "Literal['a']",
                 "Literal['a', None]", "Literal[Color.RED, 'r']", "Literal[Lvl.LO, 1]", "Literal[1, Lvl.LO]",
                 "Literal[b'x', 'eA==\\n']", "Literal[None]", "Literal[Num.ONE, 2]", "Literal[0, False, 'a', None]",
                 "Literal[Literal[1, 2], 'a']", "Literal[1000, 'x y', 2]", "Literal[Num.ONE, True]", "Literal[Num.ONE, 1, True]",
-                "Literal[True, Num.ONE]", "Literal[Lvl.LO, Num.ONE, 1]"]
+                "Literal[True, Num.ONE]", "Literal[Lvl.LO, Num.ONE, 1]", "Literal[LS, 1]", "Literal[LS]", "Literal['a', LS, None]"]
 
 _MOD_COUNTER = [0]
 
@@ -178,7 +209,7 @@ def outcome(fn, *a):
     try:
         r = fn(*a)
     except Exception as e:  # the generated union code catches Exception
-        return ("raise", type(e).__name__)
+        return ("raise", type(e).__name__, isinstance(e, ValueError))
     return ("ok", r)
 
 
@@ -207,6 +238,12 @@ def to_uv(x) -> str:
         return f"(UFloat {iv} {coq_str(repr(x))})"
     if t is str:
         return f"(UStr {coq_str(x)})"
+    if t is list:
+        return "(UList [" + "; ".join(to_uv(y) for y in x) + "])"
+    if t is tuple:
+        return "(UTuple [" + "; ".join(to_uv(y) for y in x) + "])"
+    if t is dict:
+        return "(UDict [" + "; ".join(f"({to_uv(k)}, {to_uv(y)})" for k, y in x.items()) + "])"
     return f"(UObj {coq_str(t.__name__)} {coq_str(repr(x))})"
 
 
@@ -218,15 +255,15 @@ def to_ouv(o) -> str:
 # running Coq on cases (several verdict functions per file)
 # ---------------------------------------------------------------------------
 
-def coq_verdicts(name: str, cases: list[str], case_type: str, funs: list[str], shard=400, jobs=4, timeout=600):
+def coq_verdicts(name: str, cases: list[str], case_type: str, funs: list[str], shard=400, jobs=4, timeout=600, imports="UnionModel UnionCases", gen_imports="", needs=()):
     """For each function f in funs: indices i with f (case i) = false. None + log when Coq failed."""
-    br = vlib.coq_make(["theories/Wire.vo", "theories/PyK.vo", "theories/UnionCases.vo"], jobs=4)
+    br = vlib.coq_make(["theories/Wire.vo", "theories/PyK.vo", "theories/UnionCases.vo", "theories/UnionDeep.vo"] + list(needs), jobs=4)
     if not br.ok:
         return None, "model does not build: " + (br.error or "")
     files = []
     for si in range(0, max(len(cases), 1), shard):
         chunk = cases[si:si + shard]
-        txt = vlib.CASE_HEADER.format(imports="UnionModel UnionCases", gen_imports="")
+        txt = vlib.CASE_HEADER.format(imports=imports, gen_imports=gen_imports)
         txt += f"Definition cases : list ({case_type}) :=\n  [" + ";\n   ".join(chunk) + "].\n"
         for f in funs:
             txt += f"Eval vm_compute in (bad_idx ({f}) cases).\n"
@@ -513,6 +550,10 @@ def decode_part(ctx: vlib.Ctx, mod, mem: Members):
                          {"kind": cls, "op": "decode"})
             if observed[0] == "raise" and observed[1] not in ("ValueError", "InvalidFieldValue"):
                 ctx.hist("decode_raise_class", observed[1])
+            # the union method's own raise (no member accepts) is ValueError(value) / InvalidFieldValue
+            if site.path == "union" and observed[0] == "raise" and expected[0] == "raise" and not observed[2]:
+                ctx.fail(f"decode {expr} via {entry} <- {dx}: no member accepts, but the exception is {observed[1]}, not a ValueError",
+                         dict(rep, expected="raise ValueError"), {"kind": "raise-class", "op": "decode"})
             # Coq case
             if site.path == "union":
                 cms = []
@@ -536,7 +577,7 @@ def decode_part(ctx: vlib.Ctx, mod, mem: Members):
     corr(ctx, "optional-decode-model-vs-impl", ocases, oinfo, "ocase", ["ocase_ok"])
 
 
-def corr(ctx, name, cases, info, ctype, funs, stale_fun=None):
+def corr(ctx, name, cases, info, ctype, funs, stale_fun=None, imports="UnionModel UnionCases", shard=400, gen_imports="", needs=()):
     """funs[0] = overall verdict, the others only explain a failure.  stale_fun marks cases where the
     implementation agrees with the reference while the (faithful, defect-containing) model deviates in a
     listed way: a repaired finding; reported as model-stale, not as a violation."""
@@ -550,7 +591,7 @@ def corr(ctx, name, cases, info, ctype, funs, stale_fun=None):
         info = [info[i] for i in idx]
     allf = list(funs) + ([f"fun c => negb ({stale_fun} c)"] if stale_fun else [])
     bads, log = coq_verdicts("c11_" + name.split("-model")[0].replace("-", "_"), cases, ctype, allf,
-                             jobs=4 if ctx.quick() else 10)
+                             jobs=4 if ctx.quick() else 10, imports=imports, shard=shard, gen_imports=gen_imports, needs=needs)
     if bads is None:
         ctx.correspondence(name, len(cases), -1, log)
         ctx.not_shown("correspondence " + name, log)
@@ -679,7 +720,9 @@ def literal_part(ctx: vlib.Ctx, mod, mem: Members):
     lcases, linfo, lecases, leinfo = [], [], [], []
     for expr, entry in specs:
         site = Site(mod, expr, entry)
-        lits = list(get_literal_values(site.tp))
+        # a listed instance of a str/int/bytes subclass stands for the plain builtin value (fix 12c7fd8)
+        lits = [next((b.__new__(b, l) for b in (str, bytes) if isinstance(l, b) and type(l) is not b and not isinstance(l, _enum.Enum)), l)
+                for l in get_literal_values(site.tp)]
 
         def wire(l):
             return l.value if isinstance(l, _enum.Enum) else l
@@ -781,8 +824,11 @@ class ShapeSite:
         if shape == "dataclass":
             self.entry = "dataclass"
         self.holder = ""
-        if self.entry == "field":
-            hs = f"@dataclass\nclass HS{n}(DataClassDictMixin):\n    x: {self.type_expr}\n"
+        if self.entry in ("field", "optfield"):
+            # optfield: the enclosing field is nullable, so the field loop tests for None itself and hands
+            # could_be_none=False down to the registry; every container must switch it on again for its items
+            ann = self.type_expr if self.entry == "field" else f"Optional[{self.type_expr}]"
+            hs = f"@dataclass\nclass HS{n}(DataClassDictMixin):\n    x: {ann}\n"
             xexec(hs, ns)
             self.snippet += hs
             self.holder = f"HS{n}"
@@ -798,7 +844,7 @@ class ShapeSite:
         ns = self.mod.__dict__
         if self.entry == "dataclass":
             return self.tp.from_dict(x)
-        if self.entry == "field":
+        if self.entry in ("field", "optfield"):
             return ns[self.holder].from_dict({"x": x}).x
         if self._dec is None:
             self._dec = ns["BasicDecoder"](self.tp)
@@ -808,7 +854,7 @@ class ShapeSite:
         ns = self.mod.__dict__
         if self.entry == "dataclass":
             return v.to_dict()
-        if self.entry == "field":
+        if self.entry in ("field", "optfield"):
             return ns[self.holder](x=v).to_dict()["x"]
         if self._enc is None:
             self._enc = ns["BasicEncoder"](self.tp)
@@ -818,7 +864,8 @@ class ShapeSite:
         return tpl.format(a=a, b=b, n=self.n)
 
     def replay_base(self):
-        return {"src": SCHEMA_SRC + self.snippet, "entry": "shape-" + self.entry, "type_expr": self.type_expr, "holder": self.holder}
+        return {"src": SCHEMA_SRC + self.snippet, "entry": "shape-" + ("field" if self.entry == "optfield" else self.entry),
+                "type_expr": self.type_expr, "holder": self.holder}
 
 
 def permuted(rng, expr_members: list[str]) -> list[str]:
@@ -890,7 +937,7 @@ def shapes_part(ctx: vlib.Ctx, mod, mem: Members):
         # the second hole: the same members in another order (typing equality ignores the order), or independent
         h1 = permuted(rng, h0) if rng.random() < 0.6 else gen_hole(rng, encode)
         holes = [hole_expr(h0), hole_expr(h1)][:nh]
-        entry = rng.choice(["codec", "codec", "field"])
+        entry = rng.choice(["codec", "field", "optfield"])
         try:
             site = ShapeSite(mod, shape, holes, entry)
         except Exception as e:
@@ -899,7 +946,7 @@ def shapes_part(ctx: vlib.Ctx, mod, mem: Members):
         infos = [site.slot_info(i) for i in range(2)]
         ctx.hist("shape_kind", shape + ("/enc" if encode else "/dec"))
         ctx.hist("shape_slot_paths", "+".join(i[2] for i in infos) + ("/permuted" if (nh == 2 and sorted(h0) == sorted(h1) and h0 != h1) else ""))
-        mixin = site.entry in ("field", "dataclass")
+        mixin = site.entry in ("field", "optfield", "dataclass")
         for rep_i in range(ctx.budget(3, 4)):
             if not encode:
                 a = rng.choice(ORDER_SENSITIVE if rng.random() < 0.6 else DECODE_INPUTS)
@@ -1098,13 +1145,11 @@ def typevar_part(ctx: vlib.Ctx, mod, mem: Members):
             # ---- decode
             for dx in rng.sample(ORDER_SENSITIVE, 5) + rng.sample(DECODE_INPUTS, ctx.budget(3, 8)):
                 d = eval(dx, mod.__dict__)
-                if d is None and not constrained:
-                    continue      # "acts as Optional[bound]" depends on the enclosing position; not part of C11
                 accept = lambda m, d=d: mem.accept(m, d)
                 inx = site.in_tpl.format(a=dx)
                 whole = outcome(site.decode, eval(inx, mod.__dict__))
-                if wrapper == "optional" and d is None:
-                    expected = ("ok", None)
+                if d is None and (wrapper == "optional" or not constrained):
+                    expected = ("ok", None)     # an unconstrained TypeVar acts as Optional[default or bound] (58abead, fc913d1)
                 elif constrained:
                     expected = ref_union_decode(members, d, accept)
                 else:
@@ -1133,7 +1178,8 @@ def typevar_part(ctx: vlib.Ctx, mod, mem: Members):
             vals = []
             for m in (site.constraints if constrained else [site.target]):
                 vals += ENCODE_VALUES.get(expr_of.get(repr(m), ""), [])
-            for vx in rng.sample(vals, min(len(vals), 3)):
+            picks = rng.sample(vals, min(len(vals), 3)) + ([] if constrained else ["None"])
+            for vx in picks:
                 v = eval(vx, mod.__dict__)
                 j = next((k for k, mm in enumerate(members) if conforms(mm, v)), None)
                 if j is None:
@@ -1154,10 +1200,380 @@ def typevar_part(ctx: vlib.Ctx, mod, mem: Members):
     corr(ctx, "typevar-decode-model-vs-impl", tvcases, tvinfo, "tvcase", ["tvcase_ok"])
 
 
+# ---------------------------------------------------------------------------
+# union / optional positions at any depth (UnionDeep.v)
+# ---------------------------------------------------------------------------
+DEEP_LEAVES = ["date", "datetime", "UUID", "Decimal", "DC1", "DC2", "Color", "Num", "Kind", "Weird", "bytes"]
+DEEP_SCALARS = ["int", "float", "bool", "str"]
+DEEP_ATOM_INPUTS = {
+    "int": [0, 1, -3, 10 ** 12], "float": [0.5, 2.0, -1.25], "bool": [True, False], "str": ["", "a", "12", "2020-01-01", "x y"],
+    "date": ["2020-01-01", "2021-12-31"], "datetime": ["2020-01-01T10:20:30"], "UUID": ["12345678-1234-5678-1234-567812345678"],
+    "Decimal": ["1.5", "7"], "DC1": [{"x": 1}, {"x": "2"}], "DC2": [{"y": "s"}, {"y": "t", "z": 3}], "Color": ["r", "g"],
+    "Num": [1, 2], "Kind": ["ka"], "Weird": [{"weird": 3}], "bytes": ["eA==\n"],
+}
+DEEP_GARBAGE = [None, True, 0, 1, 1.5, "", "1", "12", "ab", "2020-01-01", [], [1], ["1", "a"], [None], {}, {"x": 1}, {"k": [1]},
+                {"a": None}, (1, "a"), [[1], [2]], {"k": "2020-01-01"}, ["2020-01-01", 3], [1.0, True], {"p": {"x": 1}}, b"1"]
+
+
+def gen_deep_type(rng, depth: int) -> str:
+    if depth == 0 or rng.random() < 0.15:
+        return rng.choice(DEEP_SCALARS + DEEP_LEAVES)
+    r = rng.random()
+    sub = lambda: gen_deep_type(rng, depth - 1)
+    if r < 0.38:
+        ms = [sub() for _ in range(rng.choice([2, 2, 3, 3, 4]))]
+        if rng.random() < 0.3:
+            ms.insert(rng.randrange(len(ms) + 1), "None")
+        return f"Union[{', '.join(ms)}]"
+    if r < 0.50:
+        return f"Optional[{sub()}]"
+    if r < 0.64:
+        return f"List[{sub()}]"
+    if r < 0.74:
+        return f"Tuple[{sub()}, ...]"
+    if r < 0.88:
+        return f"Tuple[{', '.join(sub() for _ in range(rng.choice([1, 2, 2, 3])))}]"
+    return f"Dict[str, {sub()}]"
+
+
+def deep_kind(tp):
+    """('scalar', k) | ('opt', t) | ('union', [ts]) | ('list', t) | ('tupv', t) | ('tupf', [ts]) | ('dict', t) | ('leaf', tp)"""
+    if tp is None or tp in SCALARS:
+        return ("scalar", NoneType if tp is None else tp)
+    org, args = typing.get_origin(tp), typing.get_args(tp)
+    if org is typing.Union:
+        if len(args) == 2 and NoneType in args:
+            return ("opt", [a for a in args if a is not NoneType][0])
+        return ("union", list(args))
+    if org is list:
+        return ("list", args[0])
+    if org is tuple:
+        if len(args) == 2 and args[1] is Ellipsis:
+            return ("tupv", args[0])
+        return ("tupf", list(args))
+    if org is dict:
+        return ("dict", args[1])
+    return ("leaf", tp)
+
+
+def has_union(tp) -> bool:
+    k, a = deep_kind(tp)
+    if k in ("union", "opt"):
+        return True
+    if k in ("list", "tupv", "dict"):
+        return has_union(a)
+    if k == "tupf":
+        return any(has_union(x) for x in a)
+    return False
+
+
+def gen_deep_input(rng, tp, depth=0):
+    """mostly what the type expects on the wire, with noise"""
+    if rng.random() < 0.12:
+        return rng.choice(DEEP_GARBAGE)
+    k, a = deep_kind(tp)
+    if k == "scalar":
+        if a is NoneType:
+            return None
+        return rng.choice(DEEP_ATOM_INPUTS[a.__name__] + DEEP_ATOM_INPUTS[rng.choice(DEEP_SCALARS)])
+    if k == "leaf":
+        return rng.choice(DEEP_ATOM_INPUTS.get(getattr(tp, "__name__", ""), ["?"]))
+    if k == "opt":
+        return None if rng.random() < 0.3 else gen_deep_input(rng, a, depth)
+    if k == "union":
+        return gen_deep_input(rng, rng.choice(a), depth)
+    if k in ("list", "tupv"):
+        return [gen_deep_input(rng, a, depth + 1) for _ in range(rng.choice([0, 1, 2, 2, 3]))]
+    if k == "tupf":
+        xs = [gen_deep_input(rng, x, depth + 1) for x in a]
+        if rng.random() < 0.1:
+            xs = xs[:-1]
+        return xs
+    return {key: gen_deep_input(rng, a, depth + 1) for key in rng.sample(["k", "p", "q", "1"], rng.choice([0, 1, 2]))}
+
+
+def subvalues(d, acc=None):
+    """everything the container expressions can hand to an item unpacker"""
+    acc = [] if acc is None else acc
+    if any(canon(d) == canon(x) for x in acc):
+        return acc
+    acc.append(d)
+    if isinstance(d, (list, tuple)):
+        for x in d:
+            subvalues(x, acc)
+    elif isinstance(d, dict):
+        for k2, x in d.items():
+            subvalues(k2, acc)
+            subvalues(x, acc)
+    elif type(d) is str and len(d) > 1:
+        for ch in d:
+            subvalues(ch, acc)
+    return acc
+
+
+def ascii_only(d) -> bool:
+    return all((type(x) is not str) or x.isascii() for x in subvalues(d)) and all(type(x) is not bytes for x in subvalues(d))
+
+
+def ref_deep(tp, d, mem: Members):
+    """REFERENCE for a whole type: the documented container plumbing with the property's union rule at every union"""
+    k, a = deep_kind(tp)
+    if k in ("scalar", "leaf"):
+        r = mem.accept(NoneType if tp is None else tp, d)
+        if r[0] != "ok":
+            raise ValueError(d)
+        return r[1]
+    if k == "opt":
+        return None if d is None else ref_deep(a, d, mem)
+    if k == "union":
+        r = ref_union_decode(a, d, lambda m, x: outcome(ref_deep, m, x, mem))
+        if r[0] != "ok":
+            raise ValueError(d)
+        return r[1]
+    if k == "list":
+        return [ref_deep(a, x, mem) for x in d]
+    if k == "tupv":
+        return tuple([ref_deep(a, x, mem) for x in d])
+    if k == "tupf":
+        return tuple([ref_deep(t, d[i], mem) for i, t in enumerate(a)])
+    return {str(key): ref_deep(a, x, mem) for key, x in d.items()}
+
+
+def visit_unions(tp, d):
+    """(union type, members, value) for every union position reached while decoding d"""
+    k, a = deep_kind(tp)
+    if k == "opt":
+        if d is not None:
+            yield from visit_unions(a, d)
+    elif k == "union":
+        yield (tp, a, d)
+        for m in a:
+            if m not in SCALARS:
+                yield from visit_unions(m, d)
+    elif k in ("list", "tupv"):
+        try:
+            items = list(d)
+        except TypeError:
+            return
+        for x in items:
+            yield from visit_unions(a, x)
+    elif k == "tupf":
+        for i, t in enumerate(a):
+            try:
+                x = d[i]
+            except Exception:
+                return
+            yield from visit_unions(t, x)
+    elif k == "dict":
+        if isinstance(d, dict):
+            for x in d.values():
+                yield from visit_unions(a, x)
+
+
+def coq_cty(tp, subs, mem: Members, kinds: set) -> str:
+    k, a = deep_kind(tp)
+    if k == "scalar":
+        kinds.add(a)
+        return f"(YS {KIND[a]})"
+    if k == "leaf":
+        rows = "; ".join(f"({to_uv(x)}, {to_ouv(mem.accept(tp, x))})" for x in subs)
+        return f"(YLeaf (tb [{rows}]))"
+    if k == "opt":
+        return f"(YOpt {coq_cty(a, subs, mem, kinds)})"
+    if k == "union":
+        return "(YU [" + "; ".join(f"({i}%nat, {coq_cty(m, subs, mem, kinds)})" for i, m in enumerate(a)) + "])"
+    if k == "list":
+        return f"(YList {coq_cty(a, subs, mem, kinds)})"
+    if k == "tupv":
+        return f"(YTupV {coq_cty(a, subs, mem, kinds)})"
+    if k == "tupf":
+        return "(YTupF [" + "; ".join(coq_cty(t, subs, mem, kinds) for t in a) + "])"
+    kinds.add(str)
+    return f"(YDict {coq_cty(a, subs, mem, kinds)})"
+
+
+KF_KINDS = ("union-none-fallback", "union-scalar-shadowed")
+
+
+def deep_part(ctx: vlib.Ctx, mod, mem: Members):
+    rng = ctx.rng
+    dcases, dinfo = [], []
+    curated = ["List[Union[int, date]]", "Dict[str, Optional[Union[int, date]]]", "Tuple[Union[int, str], ...]", "Union[List[Union[int, date]], str]",
+               "List[Union[date, str]]", "Tuple[Union[int, float], Union[float, int]]", "Dict[str, Tuple[Optional[date], Union[str, int, None]]]",
+               "Union[Dict[str, int], List[Optional[int]], str]", "List[Optional[Union[DC1, List[int]]]]", "Optional[List[Union[Weird, str]]]",
+               "Tuple[List[Union[float, int]], List[Union[int, float]]]", "Union[Tuple[int, str], Tuple[str, ...], None]"]
+    specs = list(curated)
+    for _ in range(ctx.budget(170, 1400)):
+        for _try in range(8):
+            e = gen_deep_type(rng, rng.choice([2, 2, 3]))
+            for _f in getattr(typing, "_cleanups", []):
+                _f()
+            try:
+                if has_union(eval(e, mod.__dict__)) and len(e) < 160:
+                    specs.append(e)
+                    break
+            except Exception:
+                continue
+    for ti, expr in enumerate(specs):
+        entry = ("codec", "field", "optfield")[ti % 3]
+        try:
+            site = (Site(mod, expr, "field" if entry == "optfield" else entry) if deep_kind(eval(expr, mod.__dict__))[0] in ("union", "opt")
+                    else DeepSite(mod, expr, entry))
+        except Exception as e:
+            ctx.notes.append(f"deep schema not built: {expr}: {type(e).__name__}: {e}"[:200])
+            continue
+        tp = site.tp
+        ctx.hist("deep_root", deep_kind(tp)[0] + "/" + entry)
+        for _ in range(ctx.budget(5, 7)):
+            d = gen_deep_input(rng, tp)
+            if not ascii_only(d):
+                continue
+            dx = repr(d)
+            observed = outcome(site.decode, d)
+            expected = outcome(ref_deep, tp, d, mem)
+            if same(observed, expected):
+                cls = "agree"
+            else:
+                node_cls = []
+                for utp, members, dd in visit_unions(tp, d):
+                    racc = lambda m, x=dd: mem.accept(m, x)
+                    node_cls.append(classify_decode(members, dd, mem.accept(utp, dd), ref_union_decode(members, dd, racc), racc))
+                bad = [c for c in node_cls if c != "agree"]
+                cls = bad[0] if bad and all(c in KF_KINDS for c in bad) else "other"
+            ctx.count(("deep", expr, type(d).__name__, cls, observed[0]))
+            ctx.hist("deep_outcome", cls + "/" + observed[0])
+            if cls != "agree":
+                ctx.fail(f"decode {expr} via {entry} <- {dx}: got {show(observed)}, property says {show(expected)}",
+                         dict(site.replay_base(), op="decode", input=dx, observed=show(observed), expected=show(expected)),
+                         {"kind": cls, "op": "decode"} if cls != "other" else {"kind": cls, "op": "decode", "deep": True})
+            subs = subvalues(d)
+            kinds: set = set()
+            cty = coq_cty(tp, subs, mem, kinds)
+            cot = "; ".join(f"({KIND[k]}, [" + "; ".join(f"({to_uv(x)}, {to_ouv(mem.accept(k, x))})" for x in subs) + "])"
+                            for k in sorted(kinds, key=lambda z: KIND[z]) if k is not NoneType)
+            dcases.append(f"DCA {cty} [{cot}] {to_uv(d)} {to_ouv(observed)} {to_ouv(expected)}")
+            dinfo.append((expr, entry, dx, show(observed), show(expected), cls))
+    corr(ctx, "deep-decode-model-vs-impl", dcases, dinfo, "dcase", ["dcase_ok", "dcase_ok_model", "dcase_ok_ref", "dcase_thm"],
+         stale_fun="dcase_stale", imports="UnionModel UnionDeep", shard=150)
+
+
+class DeepSite(Site):
+    """a type whose root is a container (the union positions are below it)"""
+
+    def __init__(self, mod, expr: str, entry: str):
+        self.mod, self.expr, self.entry = mod, expr, entry
+        ns = mod.__dict__
+        n = _MOD_COUNTER[0] = _MOD_COUNTER[0] + 1
+        for _f in getattr(typing, "_cleanups", []):
+            _f()
+        if entry == "optfield":   # the enclosing field is nullable: the type under test is Optional[expr]
+            self.expr = expr = f"Optional[{expr}]"
+        self.tp = eval(expr, ns)
+        self.members, self.path, self.snippet = (), "deep", ""
+        if entry in ("field", "optfield"):
+            ann = expr
+            self.snippet = f"@dataclass\nclass H{n}(DataClassDictMixin):\n    x: {ann}\n"
+            xexec(self.snippet, ns)
+            self.holder = ns[f"H{n}"]
+            self.entry = "field"
+        self.hname = f"H{n}"
+        self._dec = self._enc = None
+
+
+# ---------------------------------------------------------------------------
+# K19: the translated emission loop vs the method text the real generator produces
+# ---------------------------------------------------------------------------
+FB_TEXT = {"int(value)": "KInt", "float(value)": "KFloat", "bool(value)": "KBool", "str(value)": "KStr", "None": "KNone"}
+TM_NAME = {"int": "KInt", "float": "KFloat", "bool": "KBool", "str": "KStr", "NoneType": "KNone"}
+
+
+def capture_union_source(mod, tp):
+    """source of the union method compiled last while BasicDecoder(tp) is built (the outermost union)"""
+    import builtins
+    import mashumaro.core.meta.types.common as _common
+    got = []
+
+    def rec(src, g=None, l=None):
+        if "def __unpack_union_" in src or "def __unpack_type_var_" in src:
+            got.append(src)
+        return builtins.exec(src, g, l)
+    old = _common.__dict__.get("exec")
+    _common.exec = rec
+    try:
+        mod.__dict__["BasicDecoder"](tp)
+    finally:
+        if old is None:
+            del _common.exec
+        else:
+            _common.exec = old
+    return got[-1] if got else None
+
+
+def parse_union_source(src: str):
+    lines = [x.strip() for x in src.splitlines()[1:] if x.strip() and not x.strip().startswith("setattr(")]
+    codes, i = [], 0
+    while i < len(lines):
+        ln = lines[i]
+        m = re.match(r"if (__value_type|type\(value\)) is (\w+):$", ln)
+        if ln == "__value_type = type(value)":
+            codes.append("CVT"); i += 1
+        elif m and i + 1 < len(lines) and lines[i + 1] == "return value" and m.group(2) in TM_NAME:
+            codes.append(f"(CTM {'true' if m.group(1) == '__value_type' else 'false'} {TM_NAME[m.group(2)]})"); i += 2
+        elif ln == "return value":
+            codes.append("CRET"); i += 1
+        elif ln == "try:" and i + 2 < len(lines) and lines[i + 1].startswith("return ") and lines[i + 2] == "except Exception: pass":
+            e = lines[i + 1][len("return "):]
+            codes.append(f"(CFB {FB_TEXT[e]})" if e in FB_TEXT else "CTRY"); i += 3
+        elif ln.startswith("raise "):
+            codes.append("CRAISE"); i += 1
+        else:
+            codes.append("CBAD"); i += 1
+    return codes
+
+
+def k19_part(ctx: vlib.Ctx, mod):
+    """(T) validation of kernel K19: for real unions, the line shapes of the generated method must be what the
+    translated loop (coq/gen/K19.v) emits for the same member list."""
+    if not ctx.kernel_report.get("K19", {}).get("ok", False):
+        ctx.not_shown("kernel K19", str(ctx.kernel_report.get("K19", {}).get("error")))
+        return
+    rng = ctx.rng
+    exprs = [e for e in CURATED_UNIONS if not e.startswith("Optional[")]
+    for _ in range(ctx.budget(120, 800)):
+        e, ent = gen_union_expr(rng, encode=False)
+        if ent != "typevar":
+            exprs.append(e)
+    cases, info, skipped = [], [], 0
+    for expr in exprs:
+        for _f in getattr(typing, "_cleanups", []):
+            _f()
+        tp = eval(expr, mod.__dict__)
+        members = list(typing.get_args(tp))
+        if typing.get_origin(tp) is not typing.Union or (len(members) == 2 and NoneType in members):
+            continue
+        src = capture_union_source(mod, tp)
+        if src is None:
+            ctx.not_shown("kernel K19 validation", f"no union method compiled for {expr}")
+            continue
+        codes = parse_union_source(src)
+        nonscalar = [m for m in members if m not in SCALARS and m is not typing.Any]
+        if codes.count("CTRY") != len(nonscalar):
+            skipped += 1      # two members rendered to one expression: ids are not observable from outside
+            continue
+        lite = [f"LS {KIND[m]}" if m in SCALARS else f"LN {i} {'true' if m is typing.Any else 'false'}" for i, m in enumerate(members)]
+        cases.append(f"([{'; '.join(lite)}], [{'; '.join(codes)}])")
+        info.append((expr, " ".join(codes)))
+        ctx.count(("k19", tuple(member_label(m) for m in members)))
+    ctx.hist("k19_validation", "compared", len(cases))
+    ctx.hist("k19_validation", "skipped-duplicate-expression", skipped)
+    corr(ctx, "K19-translation-vs-generated-source", cases, info, "list mlite * list lcode", ["k19case_ok"],
+         imports="UnionModel UnionEmit K19Cases", gen_imports="From VerifGen Require Import K19.", needs=("theories/K19Cases.vo",))
+
+
 THEOREMS = [
     "C11_union_decode_partial", "C11_union_deviation_char", "C11_union_shadow_result", "C11_union_none_refuted",
     "C11_union_shadow_refuted", "C11_no_cross_coercion", "C11_scalars_first_no_shadow", "C11_union_result_from_member",
-    "C11_union_raises_iff", "C11_none_member_never_raises", "C11_deterministic", "C11_union_dedup_invisible", "C11_nested_union_partial", "C11_shape_positions", "C11_typevar_constraints_win", "C11_typevar_partial", "C11_opt",
+    "C11_union_raises_iff", "C11_none_member_never_raises", "C11_deterministic", "C11_union_dedup_invisible", "C11_nested_union_partial", "C11_shape_positions", "C11_typevar_constraints_win", "C11_typevar_partial", "C11_deep_decode_partial", "C11_deep_decode_refuted", "C11_union_emit_correct", "C11_union_emitted_partial", "C11_opt",
     "C11_union_encode_partial", "C11_union_encode_refuted", "C11_literal_full", "C11_literal_encode_full",
     "C11_literal_returns_listed", "C11_literal_accepts_listed",
 ]
@@ -1171,7 +1587,7 @@ def run(ctx: vlib.Ctx):
         "dataclass field, List element; inputs: 62 basic-form values of every scalar class, lists, dicts and garbage. "
         "distinct = (member mix in order, path, input class, verdict class, outcome). Literal: 1-4 listed values of "
         "int/bool/str/None/enum/bytes x 27 inputs.")
-    ctx.theorems("props/C11_union.vo", THEOREMS)
+    ctx.theorems("props/C11_union.vo", THEOREMS, kernels=["K19"])
     ctx.trusted += [
         "UnionModel.v is hand-written from UnionUnpackerBuilder._add_body / pack_union / LiteralUnpackerBuilder / expr_or_maybe_none; "
         "tied to /repo only behaviourally (correspondence on every run), parametric in the member (un)packers whose behaviour is "
@@ -1186,7 +1602,7 @@ def run(ctx: vlib.Ctx):
     ]
     if not ctx.quick():
         # second opinion on the compiled proofs (independent checker)
-        rc, log, secs = vlib.run(["timeout", "900", "coqchk", "-silent", "-o", "-Q", "theories", "Verif", "-Q", "props", "VerifProps",
+        rc, log, secs = vlib.run(["timeout", "900", "coqchk", "-silent", "-o", "-Q", "theories", "Verif", "-Q", "gen", "VerifGen", "-Q", "props", "VerifProps",
                                   "VerifProps.C11_union"], cwd=vlib.COQ, timeout=930)
         ok = rc == 0 and "Axioms: <none>" in re.sub(r"\s+", " ", log)
         ctx.obligation("coqchk VerifProps.C11_union (no axioms)", ok, log[-600:])
@@ -1199,6 +1615,8 @@ def run(ctx: vlib.Ctx):
     literal_part(ctx, mod, mem)
     shapes_part(ctx, mod, mem)
     typevar_part(ctx, mod, mem)
+    deep_part(ctx, mod, mem)
+    k19_part(ctx, mod)
 
 
 # ---------------------------------------------------------------------------
